@@ -1503,6 +1503,7 @@ func (h *c08H) recovery() {
 	}
 	h.net.resetLag()
 	h.net.maxLatNs.Store(0)
+	h.net.resetTiming()
 	if err := h.step(c08Opt{kind: "cmd-execute", class: "recovery", actor: p.leader, target: p.leader}, func() error { return p.leader.cmdExecute() }); err != nil {
 		run.Violation("C08/not-recoverable/execute-of-recovery-proposal-refused", err.Error(), h.info(nil))
 		return
@@ -1519,6 +1520,20 @@ func (h *c08H) recovery() {
 			if r != "complete" {
 				run.Inconclusive(fmt.Sprintf("case %d: recovery DKG ended %v while the box was not keeping time (timer lag %v, slowest bundle %v)", h.c.Index, out, lag, lat))
 				return
+			}
+		}
+	}
+	{
+		var paddrs []string
+		for _, nd := range p.participants() {
+			paddrs = append(paddrs, nd.addr)
+		}
+		if late := h.net.synchronyKept(paddrs, "", c08Phase, 250*time.Millisecond+2*h.net.lag()); late != "" {
+			for _, r := range out {
+				if r != "complete" {
+					run.Inconclusive(fmt.Sprintf("case %d: recovery DKG ended %v outside the synchronous model: %s", h.c.Index, out, late))
+					return
+				}
 			}
 		}
 	}
